@@ -14,6 +14,12 @@ def predict(root, version):
     out = []
     if root.kind == 'msg':
         ref = T.messages(version).get(root.key)
+        if ref is None and str(root.key).upper().startswith('Z'):
+            # a Z message has no structure of its own, but the segments it holds have theirs
+            for kid in root.kids:
+                if kid.kind == 'seg' and not str(kid.key).upper().startswith('Z'):
+                    _segment(kid, version, out)
+            return out
         if ref is None:
             return None              # unknown structure: nothing to predict against
         _group(root, ref, root.key, version, out)
